@@ -131,7 +131,7 @@ type mutateGen struct {
 func newMutateGen(seed int64, tier string) *mutateGen {
 	g := &mutateGen{seed: seed, tier: tier, n: 6000}
 	if tier == "thorough" {
-		g.n = 100000
+		g.n = 40000
 	}
 	for _, s := range corpus {
 		g.toks = append(g.toks, g12lib.Tokens(s))
